@@ -24,7 +24,7 @@ STUBS = ["np.linalg.pinv / solve -> exact inverse (adjugate)", "open3d -> stub m
 OUTSIDE = ["bodies from the make_* factories and the 5 % discretisation clause (whole-program: thousands of tetrahedron pairs)", "rounding"]
 BOUNDS = {"quick": "wrench algebra: <=2 contacts with fully symbolic centre/force (12 reals) + symbolic frame translation at 4 signed-permutation rotations; pipeline: micro-bodies of 1-2 tetrahedra, body 2 at a rational rotated pose, body 1 translated along a line (1 real)",
           "thorough": "more poses, common rigid motions, all rotations for the algebra"}
-WALL_BUDGET = {"quick": 360, "thorough": 2400}
+WALL_BUDGET = {"quick": 360, "thorough": 900}
 EXPECTED_EXCEPTIONS = ()
 
 X, Y, Z = [1.0, 0.0, 0.0], [0.0, 1.0, 0.0], [0.0, 0.0, 1.0]
@@ -139,6 +139,24 @@ class MicroPipeline(Scenario):
             m1, m2 = self.bodies(cx, inp, (Rc, tc))
             hit_m, w12m, w21m = H.contact_forces(m1, m2)
             out = {"hit": bool(hit), "w12": w12, "w21": w21, "hit_m": bool(hit_m), "w12m": w12m, "w21m": w21m}
+        elif mode == "history":
+            # interleaved calls on the SAME objects: (b1,b2), (b2,b1) re-expresses b2 in b1's frame, then b2 is moved
+            # IN PLACE (as the library's own examples do), then (b1,b2) again; must equal fresh bodies at the final poses
+            hit1, w12_1, w21_1 = H.contact_forces(b1, b2)
+            com_before = b1.com
+            H.contact_forces(b2, b1)
+            v = self.args.get("move", [0.0, 0.0, 0.0625])
+            b2.body2origin_[:3, 3] += cx.arr(v)
+            hit3, w12_3, w21_3 = H.contact_forces(b1, b2)
+            M1, M2 = inp["M1"], inp["M2"]
+            # after the second call b2 lives in b1's frame (= M2's frame after the first call): moving its origin by v
+            # in the world moves the body by v
+            f1 = micro_body(H, cx, self.args["a"], M1, self.args.get("E1", 1.0))
+            f2 = micro_body(H, cx, self.args["b"], (M2[0], ADD(M2[1], v)), self.args.get("E2", 1.0))
+            hit_f, w12_f, w21_f = H.contact_forces(f1, f2)
+            tp = b1.tetrahedra_points
+            out = {"hit": bool(hit3), "w12": w12_3, "w21": w21_3, "hit_f": bool(hit_f), "w12f": w12_f, "w21f": w21_f,
+                   "com": b1.com, "tp": tp}
         elif mode == "broad":
             from distance3d.hydroelastic_contact._interface import find_contact_surface
             cs_b = find_contact_surface(b1, b2, use_aabb_trees=False)
@@ -163,6 +181,23 @@ class MicroPipeline(Scenario):
         f12, f21 = list(out["w12"][:3]), list(out["w21"][:3])
         scale = 1.0
         tolf = 1e-6
+        if mode == "history":
+            ob.require("history_same_flag_as_fresh", exact=(out["hit"] == out["hit_f"]))
+            ob.require("history_same_wrenches_as_fresh",
+                       exact=AND(vec_eq(list(out["w12"]), list(out["w12f"])), vec_eq(list(out["w21"]), list(out["w21f"]))),
+                       tol=AND(vec_close(list(out["w12"]), list(out["w12f"]), tolf), vec_close(list(out["w21"]), list(out["w21f"]), tolf)))
+            # cached centre of mass equals the direct volume-weighted centroid of the current tetrahedra
+            tp = out["tp"]
+            acc, tot = [0.0, 0.0, 0.0], 0.0
+            for t in tp:
+                a, b, c, d = [list(x) for x in t]
+                vol = ABS(DOT(SUB(b, a), CROSS(SUB(c, a), SUB(d, a))))
+                cen = [0.25 * (a[k] + b[k] + c[k] + d[k]) for k in range(3)]
+                acc = ADD(acc, SCALE(vol, cen))
+                tot = tot + vol
+            ob.require("cached_com_is_current", exact=vec_eq(SCALE(tot, list(out["com"])), acc),
+                       tol=vec_close(SCALE(tot, list(out["com"])), acc, 1e-9))
+            return
         ob.require("action_equals_minus_reaction", exact=vec_eq(f12, [-x for x in f21]),
                    tol=vec_close(f12, [-x for x in f21], tolf))
         if not out["hit"]:
@@ -206,6 +241,8 @@ def jobs(tier, seed):
             R2, t2 = poses2[(pi + si) % 3]
             base = {"a": a, "b": b, "sweep": sw, "R2": R2, "t2": t2}
             J.append({"family": "forces", "args": dict(base, mode="forces")})
+            if si == 0 or tier != "quick":
+                J.append({"family": "history", "args": dict(base, mode="history")})
             J.append({"family": "broad_phase", "args": dict(base, mode="broad")})
             if tier != "quick" or (pi + si) % 4 == 0:
                 J.append({"family": "common_motion", "args": dict(base, mode="motion", rc=7, tc=[0.5, -1.0, 2.0])})
